@@ -264,6 +264,12 @@ func (b *builder) buildEnvs() error {
 
 // buildLogDir builds the log directory for the DAG.
 func (b *builder) buildLogDir() (err error) {
+	// Command substitution is evaluated only when the DAG is loaded for
+	// execution, never when it is listed, viewed or validated.
+	if b.opts.noEval {
+		b.dag.LogDir = b.def.LogDir
+		return nil
+	}
 	logDir, err := substituteCommands(os.ExpandEnv(b.def.LogDir))
 	if err != nil {
 		return err
